@@ -20,6 +20,9 @@ try:
         d = os.path.join("seeded", sid)
         meta = json.load(open(os.path.join(d, "meta.json")))
         checks = meta.get("caught_by") or [meta["property"]]
+        if meta.get("superseded_by_fix"):
+            print(sid, "skipped: needs the tree before fix", meta["superseded_by_fix"], flush=True)
+            continue
         res = {}
         r = subprocess.run(["git", "-C", "/repo", "apply", os.path.abspath(os.path.join(d, "patch.diff"))], capture_output=True, text=True)
         if r.returncode != 0:
